@@ -52,7 +52,7 @@ def gen(seed: int, tier: str) -> dict[str, Any]:
             g = "tiny"      # an operation placed some iterations into its instant must stay the last one of that instant
         t += {"zero": 0.0, "tiny": 0.01, "half": ref / 2, "near-": ref - 0.01, "eq": ref, "near+": ref + 0.01,
               "far": ref * 2.5}[g]
-        k = rng.choices(["set", "set_skip", "init", "read", "ext_write", "readd"], [8, 4, 1, 4, 1, 0.8 if c else 0])[0]
+        k = rng.choices(["set", "set_skip", "init", "read", "ext_write", "readd", "init_bad"], [8, 4, 1, 4, 1, 0.8 if c else 0, 1])[0]
         op: dict[str, Any] = {"t": round(t, 6), "op": k, "g": g}
         if g == "eq":
             # exactly one cooldown after the previous operation - the instant the cooldown timer of a telegram sent then
@@ -81,6 +81,7 @@ def gen(seed: int, tier: str) -> dict[str, Any]:
 
 def run(plan: dict[str, Any]) -> dict[str, Any]:
     from xknx.devices import ExposeSensor
+    from xknx.exceptions import ConversionError
     from xknx.telegram import GroupAddress
 
     cfg = plan["config"]
@@ -128,6 +129,13 @@ def run(plan: dict[str, Any]) -> dict[str, Any]:
                 await dev.set(op["v"], skip_unchanged=True)
             elif k == "init":
                 dev.initialize_value(op["v"])
+            elif k == "init_bad":
+                # a value the type rejects: raises and changes nothing - a value waiting for the cooldown stays pending
+                try:
+                    dev.initialize_value("not a number")
+                    R.probes["invalid_initial_value_not_rejected"] += 1
+                except ConversionError:
+                    R.extra_faults["initialize_value_rejected"] += 1
             elif k == "read":
                 stub.deliver(W.cemi_ldata(W.L_DATA_IND, 0x1108, GA, tpci_apci=W.gv_read()), "read")
             elif k == "ext_write":
